@@ -1,10 +1,12 @@
 //! n2v: runtime-monitoring harness for evmar/n2 (see /verif/DESIGN.md).
+mod agent_stream;
 mod ap;
 mod dbfmt;
 mod json;
 mod model;
 mod props;
 mod pure;
+mod real;
 mod report;
 mod rng;
 mod sim;
@@ -29,6 +31,7 @@ pub struct Ctx {
     pub from_case: Option<u64>,
     /// journal every input instead of every 1024th
     pub fine_journal: bool,
+    pub args: Vec<String>,
     pub out: Option<PathBuf>,
     pub last_checkpoint: std::cell::Cell<Instant>,
     pub started: Instant,
@@ -58,6 +61,9 @@ impl Ctx {
         if std::fs::write(&tmp, j.dump()).is_ok() {
             let _ = std::fs::rename(&tmp, out);
         }
+    }
+    pub fn arg(&self, name: &str) -> Option<&str> {
+        arg(&self.args, name)
     }
     pub fn journal(&self, case: u64) {
         if let Some(p) = &self.journal {
@@ -129,6 +135,7 @@ fn main() {
         verbose,
         from_case: arg(&args, "--from-case").and_then(|s| s.parse().ok()),
         fine_journal: args.iter().any(|a| a == "--fine-journal"),
+        args: args.clone(),
         out: out.clone().filter(|p| p != std::path::Path::new("/dev/null") && p != std::path::Path::new("/dev/stderr")),
         last_checkpoint: std::cell::Cell::new(Instant::now()),
         started: Instant::now(),
@@ -138,6 +145,7 @@ fn main() {
     match engine.as_str() {
         "sim" => props::run_sim(&ctx, &mut report),
         "pure" => pure::run(&ctx, &mut report),
+        "real" => props::realp::run(&ctx, &mut report),
         other => {
             eprintln!("unknown engine {}", other);
             std::process::exit(2);
